@@ -283,6 +283,39 @@ def run(chk: Check, ctx: Any) -> None:
                  and astq.self_attr(n.targets[0].value) == "_collected_labels"]
         chk.decide("C07-R3", f"listener:label-by-name:{mname}", len(look) == 1 and len(store) == 1, f,
                    "labels are not looked up by name before a new one is created and stored under that name", "lookup by name, create once")
+    # label ids: every creation site draws the id from one counter that is advanced for each new label
+    sites = []
+    for mname, m in lcls.methods.items():
+        for c in walk_no_nested(m):
+            if isinstance(c, ast.Call) and dotted(c.func) == "SsbLabel" and c.args:
+                sites.append((mname, m, c))
+    srcs = {norm(c.args[0]) for _m, _f, c in sites}
+    lf = Func(lcls.mod, lcls, lcls.methods["exitLabel"])
+    if len(sites) < 2:
+        chk.unknown("C07-R3", "listener:label-ids", lf, f"{len(sites)} SsbLabel(...) construction sites in the listener (expected: definition and jump argument)")
+    elif len(srcs) > 1:
+        chk.violation("C07-R3", "listener:label-ids", lf,
+                      f"label ids are drawn from different sources at the {len(sites)} creation sites ({sorted(srcs)}): a label first seen as a jump argument and one "
+                      "first seen at its definition can get the same id, their offsets overwrite each other and jumps to one land on the other", node=sites[0][2])
+    else:
+        src = next(iter(srcs))
+        attr = src[5:] if src.startswith("self.") else None
+        ok = attr is not None
+        for mname, m, c in sites:
+            incs = [n for n in walk_no_nested(m) if isinstance(n, ast.AugAssign) and astq.self_attr(n.target) == attr and isinstance(n.op, ast.Add)
+                    and isinstance(n.value, ast.Constant) and n.value.value == 1 and n.lineno < c.lineno]
+            ok = ok and len(incs) >= 1
+        chk.decide("C07-R3", "listener:label-ids", True if ok else None, lf, f"label ids come from `{src}`", f"every new label takes the next value of {src}")
+    # every routine is printed with its labels
+    itf = repo.func(f"{RESOLVER}:OpsLabelJumpToResolver.__iter__")
+    yields = [n for n in walk_no_nested(itf.node) if isinstance(n, (ast.Yield, ast.YieldFrom))]
+    plain = [y for y in yields if "_iter_routine(" not in norm(y)]
+    if not yields:
+        chk.unknown("C07-R3", "resolver:all-routines-labelled", itf, "__iter__ yields nothing")
+    else:
+        chk.decide("C07-R3", "resolver:all-routines-labelled", not plain, itf,
+                   f"`{norm(plain[0]) if plain else ''}` yields a routine without inserting its labels: a label whose op lies in that routine is never printed, and the "
+                   "SsbScript text refers to an undefined label", "every routine passes through _iter_routine", node=plain[0] if plain else None)
     el = Func(lcls.mod, lcls, lcls.methods["exitLabel"])
     pushes = [c for c in walk_no_nested(el.node) if isinstance(c, ast.Call) and isinstance(c.func, ast.Attribute) and c.func.attr == "append"
               and astq.self_attr(c.func.value) == "_labels_before_op"]
